@@ -12,6 +12,7 @@ import (
 	"reflect"
 	"strings"
 	"testing"
+	"unicode/utf16"
 
 	ebu "github.com/jilio/ebu"
 	"github.com/jilio/ebu/state"
@@ -56,6 +57,48 @@ type Tags []string
 
 const tagsType = "c18.tags"
 
+// rawState is a state message published as the JSON text a foreign producer wrote.
+type rawState json.RawMessage
+
+func (rawState) EventTypeName() string          { return "state.ChangeMessage" }
+func (r rawState) MarshalJSON() ([]byte, error) { return []byte(r), nil }
+
+// respellKey re-encodes a change message with its key written in escapes: every "/" as "\/" and
+// every non-ASCII character as \uXXXX (characters beyond the BMP as surrogate pairs). The value of
+// the key is unchanged.
+func respellKey(m *state.ChangeMessage) []byte {
+	b, _ := json.Marshal(m)
+	var doc map[string]json.RawMessage
+	json.Unmarshal(b, &doc)
+	var sb strings.Builder
+	sb.WriteByte('"')
+	for _, r := range m.Key {
+		switch {
+		case r == '/':
+			sb.WriteString(`\/`)
+		case r == '"' || r == '\\':
+			sb.WriteByte('\\')
+			sb.WriteRune(r)
+		case r < 0x20 || r > 0x7e:
+			if r > 0xffff {
+				r1, r2 := utf16.EncodeRune(r)
+				fmt.Fprintf(&sb, `\u%04x\u%04x`, r1, r2)
+			} else {
+				fmt.Fprintf(&sb, `\u%04x`, r)
+			}
+		default:
+			sb.WriteRune(r)
+		}
+	}
+	sb.WriteByte('"')
+	doc["key"] = json.RawMessage(sb.String())
+	out, err := json.Marshal(doc)
+	if err != nil {
+		panic(err)
+	}
+	return out
+}
+
 type Ghost struct{ X int } // never registered
 
 // namesake: a user-shaped entity published under an entity type name that is not registered but
@@ -72,7 +115,7 @@ type UserNext struct {
 	AddedLater int `json:"added_later"`
 }
 
-var keys = []string{"1", "user/1", "a/b/c", "ключ", " ", "order/1", "shop/order/1", "a//b/c", "./1", "a/b/c/", "..", "c18.User/1"}
+var keys = []string{"1", "😀/1", "user/1", "a/b/c", "ключ", " ", "order/1", "shop/order/1", "a//b/c", "./1", "a/b/c/", "..", "c18.User/1"}
 
 type msgSpec struct {
 	Kind string `json:"kind"` // insert update update-old delete delete-old reset snap-start snap-end bad-value
@@ -469,6 +512,12 @@ func TestC18(t *testing.T) {
 			}
 			switch m := msg.(type) {
 			case *state.ChangeMessage:
+				if c%4 == 1 {
+					// a producer in another language: the same document, its key spelled with the escapes
+					// JSON allows ("\/", "\uXXXX" incl. surrogate pairs)
+					ebu.Publish(bus, rawState(respellKey(m)))
+					continue
+				}
 				if c%2 == 0 {
 					ebu.Publish(bus, *m)
 				} else {
